@@ -952,6 +952,17 @@ func (c *Cluster) MkSimple(b *Node, t specqbft.MessageType, r specqbft.Round, ro
 	return Sign(c.KS, b.ID, &specqbft.Message{MsgType: t, Height: c.Cfg.Height, Round: r, Identifier: c.ID, Root: root})
 }
 
+// MkSimpleAt / MkUnpreparedRCAt: a message operator s (correct or not) could have broadcast at ANOTHER height hp of the same
+// validator and role (an unprepared round-change after failed rounds there, a prepare / commit for a value proposed there). The
+// adversary recorded it at that height and may replay it, typically embedded in a justification.
+func (c *Cluster) MkSimpleAt(s *Node, hp specqbft.Height, t specqbft.MessageType, r specqbft.Round, root [32]byte) *specqbft.SignedMessage {
+	return Sign(c.KS, s.ID, &specqbft.Message{MsgType: t, Height: hp, Round: r, Identifier: c.ID, Root: root})
+}
+
+func (c *Cluster) MkUnpreparedRCAt(s *Node, hp specqbft.Height, r specqbft.Round) *specqbft.SignedMessage {
+	return Sign(c.KS, s.ID, &specqbft.Message{MsgType: specqbft.RoundChangeMsgType, Height: hp, Round: r, Identifier: c.ID})
+}
+
 // MkRoundChange exposes the Byzantine round-change builder (prepared on what was seen, or unprepared).
 func (c *Cluster) MkRoundChange(b *Node, r specqbft.Round, prepared bool) *specqbft.SignedMessage {
 	return c.mkRoundChange(b, r, prepared)
@@ -963,6 +974,18 @@ func (c *Cluster) MkForgedPreparedRC(b *Node, r, pr specqbft.Round, v []byte, si
 	var ps []*specqbft.SignedMessage
 	for _, s := range signers {
 		ps = append(ps, c.MkSimple(s, specqbft.PrepareMsgType, pr, Root(v)))
+	}
+	js, _ := specqbft.MarshalJustifications(ps)
+	sm := Sign(c.KS, b.ID, &specqbft.Message{MsgType: specqbft.RoundChangeMsgType, Height: c.Cfg.Height, Round: r, Identifier: c.ID,
+		Root: Root(v), DataRound: pr, RoundChangeJustification: js})
+	sm.FullData = v
+	return sm
+}
+
+// MkPreparedRCWith: b's round-change for round r claiming to be prepared on v in round pr, carrying the given prepares.
+func (c *Cluster) MkPreparedRCWith(b *Node, r, pr specqbft.Round, v []byte, ps []*specqbft.SignedMessage) *specqbft.SignedMessage {
+	if len(ps) > 13 {
+		ps = ps[:13]
 	}
 	js, _ := specqbft.MarshalJustifications(ps)
 	sm := Sign(c.KS, b.ID, &specqbft.Message{MsgType: specqbft.RoundChangeMsgType, Height: c.Cfg.Height, Round: r, Identifier: c.ID,
